@@ -18,6 +18,26 @@ Definition mk_range_line (base size : Z) : option range :=
 Definition module_read_keep (base size : Z) : bool := negb ((size =? 0) || (size >? U64MAX - base)).
 
 (* o_err: the reader returned Err for the whole stream (kind 9 only) *)
+(* memory lists read from stream bytes (harness kinds 21 / 22).  The harness hands the readers a file image `all` of
+   ALL_LEN bytes; kind 21 (MinidumpMemoryList::read): the rva of entry i is 0 when its tag is 0, else 1 + i, and
+   MinidumpMemory::read accepts a descriptor iff rva <> 0, data_size <> 0 and rva .. rva + data_size lies inside `all`
+   (location_slice) — the others are skipped, from_regions runs over the kept ones; kind 22 (MinidumpMemory64List::read):
+   the regions are laid out back to back from MEM64_BASE_RVA, one region running past `all` (or an overflowing sum)
+   fails the whole read *)
+Definition ALL_LEN : Z := 80.
+Definition MEM64_BASE_RVA : Z := 16.
+Definition mem_rva (i v : Z) : Z := if v =? 0 then 0 else 1 + i.
+Definition memory_read_keep (len rva size : Z) : bool :=
+  negb ((rva =? 0) || (size =? 0)) && (rva + size <=? len).
+Fixpoint mem64_ok (len rva : Z) (sizes : list Z) : bool :=
+  match sizes with
+  | [] => true
+  | s :: t => match checked_add 64 rva s with
+              | None => false
+              | Some e => (e <=? len) && mem64_ok len e t
+              end
+  end.
+
 Record c08_out := { o_panic : bool; o_err : bool; o_table : list (Z * Z * Z); o_gets : list (list Z) }.
 
 Definition pack {V} (tag : V -> Z) (qs : list Z) (r : outcome (list (range * V))) : c08_out :=
@@ -39,6 +59,8 @@ Definition third (t : Z * Z * Z) : Z := snd t.
    kind 8: MinidumpModuleList::read (the read-time filter, then the index-valued builder)
    kind 9: MinidumpUnloadedModuleList::read: one raw module with a zero size or reaching past the address space makes
            the whole read return Err (o_err); otherwise the unloaded table over all entries (kind 3)
+   kind 10: MinidumpMemoryList::read (descriptors the region reader rejects are skipped; tags = positions in the stream)
+   kind 11: MinidumpMemory64List::read (o_err when a region runs past the file image; else kind 1)
    kind 7: STACK WIN records of one type (frame data or FPO), file order: insert_win_stack_info for each, then the
            parser-local builder; a table entry / lookup answer is the record as stored: [tag; address; size] *)
 Definition run_win (p : profile) (ents : list (Z * Z * Z)) (qs : list Z) : c08_out :=
@@ -69,6 +91,14 @@ Definition run_case (kind : Z) (ents : list (Z * Z * Z)) (qs : list Z) : c08_out
       {| o_panic := false; o_err := false;
          o_table := map (fun e => (fst (fst e), snd (fst e), snd e)) t;
          o_gets := map (fun x => unloaded_at t x) qs |}
+    else {| o_panic := false; o_err := true; o_table := []; o_gets := [] |}
+  else if kind =? 10 then
+    pack (fun v => v) qs (build Z.eqb
+      (map (fun ei => let '((b, s, _), i) := ei in (mk_range b s, i))
+           (filter (fun ei => let '((b, s, v), i) := ei in memory_read_keep ALL_LEN (mem_rva i v) s) (enumerate_from 0 ents))))
+  else if kind =? 11 then
+    if mem64_ok ALL_LEN MEM64_BASE_RVA (map (fun e => let '(b, s, _) := e in s) ents) then
+      pack (fun v => v) qs (build_indexed (map (fun e => let '(b, s, _) := e in mk_range b s) ents))
     else {| o_panic := false; o_err := true; o_table := []; o_gets := [] |}
   else if kind =? 4 then
     pack third qs (build_p triple_eqb
